@@ -26,7 +26,7 @@ def generate(r):
         if queued and r.random() < 0.5:
             entries.append(queued.pop(0))
             continue
-        kinds = ["let", "fn", "class", "bad", "mod", "closure", "fiber", "badimport", "workers", "abandoned"]
+        kinds = ["let", "fn", "class", "bad", "mod", "closure", "fiber", "badimport", "workers", "abandoned", "latemodule"]
         if classes:
             kinds += ["obj", "sub", "obj"]
         if objs:
@@ -135,6 +135,15 @@ def generate(r):
             queued.append([launch, True])
             queued.append(["jobs%d <- %d; jobs%d.close();" % (i, job, i), True])
             queued.append(["print('sum', %s);" % " + ".join("<- res%d" % i for _ in range(consumers + 1)), True])
+        elif k == "latemodule" and not any("gen" in e[0] for e in queued):
+            # a module that does not exist yet is imported (the line fails), the session then writes the file itself and
+            # imports it again: nothing remembered from the failed attempt may stand in the way
+            entries.append(["import self.gen%d; print('unreachable');" % i, False])
+            queued.append(["import std.io.fs:{writeFile as wf%d}; wf%d('/sim/gen%d.lay', 'print(\\'run gen%d\\'); export let v = %d;');" % (
+                i, i, i, i, 40 + i), True])
+            queued.append(["import self.gen%d as g%d; print(g%d.v);" % (i, i, i), True])
+            if r.random() < 0.5:
+                queued.append(["import self.gen%d:{v as gv%d}; print(gv%d + 1);" % (i, i, i), True])
         elif k == "abandoned" and not any("ab" in e[0] for e in queued):
             # a fiber launched by a line raises while the line is parked on a channel: the line is given up with an error.
             # The session stays usable, in particular the channel: a later line that sends to it runs to its end
